@@ -212,17 +212,35 @@ def render_c06(case, c, seed):
         call = f"Tr::{m}(&app{''.join(', ' + e for e in exprs)})"
         scs.append(scenario(case, n, recv, m, logged, call, asy, make=f"let app = {mk('Prov')};"))
         descs[n] = {"own": own, "deps": depsmap, "expect": "ok", "avail": {}, "pair": "", "allocpair": "", "answer": "", "kind": "trait"}
-    # availability
-    n += 1
-    probes = [f'::vt::emit("scenario", "\\"case\\":\\"{case}\\",\\"sc\\":{n}");']
-    for a in apps:
-        probes.append(f'::vt::emit("avail", &format!("\\"probe\\":\\"{a}\\",\\"has\\":{{}}", ::vt::has_impl!(::entrait::Impl<{a}>: Tr{targs})));')
-    probes.append('::vt::emit("end", "\\"panicked\\":false,\\"result\\":\\"\\"");')
-    scs.append("{ " + "\n      ".join(probes) + " }")
-    descs[n] = {"own": {}, "deps": {}, "expect": "ok", "avail": {a: c["avail"][a]["expect"] for a in apps}, "pair": "", "allocpair": "",
-                "answer": "", "kind": "avail"}
+    # availability (of the trait, and of the method-less sibling trait `Mark` of the "marker" programs)
+    marker_text = ""
+    probed = [f"Tr{targs}"]
+    if p["extra"] == "marker":
+        probed.append("Mark")
+        msup = "" if sel == "Self" else ": 'static"
+        marker_text = f"#[::entrait::entrait({attr})]\npub trait Mark{msup} {{}}\n"
+        if sel == "Self":
+            marker_text += "".join(f"impl Mark for {a} {{}}\n" for a in ("Prov", "ProvNoSync", "ProvNoSend"))
+        else:
+            marker_text += "impl Mark for Inner {}\n"
+            for a in ("Prov", "ProvNoSync", "ProvNoSend"):
+                if sel == "ref":
+                    marker_text += f"impl AsRef<dyn Mark> for {a} {{ fn as_ref(&self) -> &(dyn Mark + 'static) {{ &self.inner }} }}\n"
+                else:
+                    marker_text += f"impl ::core::borrow::Borrow<dyn Mark> for {a} {{ fn borrow(&self) -> &(dyn Mark + 'static) {{ &self.inner }} }}\n"
+    for tr in probed:
+        n += 1
+        probes = [f'::vt::emit("scenario", "\\"case\\":\\"{case}\\",\\"sc\\":{n}");']
+        for a in apps:
+            if tr == "Mark" and sel == "Self" and a == "ProvNoSync" and p["async"] == "async_trait":
+                pass
+            probes.append(f'::vt::emit("avail", &format!("\\"probe\\":\\"{a}\\",\\"has\\":{{}}", ::vt::has_impl!(::entrait::Impl<{a}>: {tr})));')
+        probes.append('::vt::emit("end", "\\"panicked\\":false,\\"result\\":\\"\\"");')
+        scs.append("{ " + "\n      ".join(probes) + " }")
+        descs[n] = {"own": {}, "deps": {}, "expect": "ok", "avail": {a: c["avail"][a]["expect"] for a in apps}, "pair": "", "allocpair": "",
+                    "answer": "", "kind": "avail"}
     imports = "#[allow(unused_imports)] use ::core::borrow::Borrow;\n#[allow(unused_imports)] use ::core::convert::AsRef;\n"
-    src = (imports + sup_text + trait_text + "\n".join(decls) + "\n" + "\n".join(impls) + "\npub fn run() {\n    " + "\n    ".join(scs) + "\n}\n")
+    src = (imports + sup_text + trait_text + marker_text + "\n".join(decls) + "\n" + "\n".join(impls) + "\npub fn run() {\n    " + "\n    ".join(scs) + "\n}\n")
     return src, descs
 
 
@@ -240,13 +258,21 @@ def render_c07(case, c, seed):
     sig_params = "".join(f", {n}: {t}" for n, t, _ in ps)
     fnkw = "async fn" if is_async else "fn"
     others = []
-    for k in range(1, p["depbounds"] + 1):
+    # depbounds 0..2: that many entraited fns as further dependencies; 3: two instantiations of one generic LEAF trait
+    # (`Leaf<u8> + Leaf<u16>`: same last path segment, and not implemented for every Impl<T>)
+    leaf = p["depbounds"] == 3
+    nb = 0 if leaf else p["depbounds"]
+    for k in range(1, nb + 1):
         body = logging_body(f'String::from("{case}::other{k}")', "::vt::addr(deps)", ['format!("{:?}", x)'], False)
         others.append(f"#[::entrait::entrait(pub Other{k})]\nfn other{k}<D>(deps: &D, x: i32) -> String {body}\n")
     attr = "TrImpl, delegate_by = DelegateTr" if static else "TrImpl, delegate_by = ref"
     methods = [f"    {fnkw} m{i}(&self{sig_params}) -> String;" for i in range(1, p["nmeth"] + 1)]
     trait_text = f"#[::entrait::entrait({attr})]\n{at}pub trait Tr {{\n" + "\n".join(methods) + "\n}\n"
-    if p["depbounds"] == 0:
+    if leaf:
+        gen, deps_ty = "", "&(impl Leaf<u8> + Leaf<u16>)"
+        others.append("#[::entrait::entrait]\npub trait Leaf<K> { fn leaf(&self, k: K) -> u8; }\n"
+                      + "".join(f"impl Leaf<{k}> for {a} {{ fn leaf(&self, _k: {k}) -> u8 {{ {v} }} }}\n" for a in ("A", "B") for k, v in (("u8", 8), ("u16", 16))))
+    elif p["depbounds"] == 0:
         gen, deps_ty = "<D>", "&D"
     elif p["depbounds"] == 1:
         gen, deps_ty = "", "&impl Other1"
@@ -260,8 +286,8 @@ def render_c07(case, c, seed):
     def target_impl(x):
         ms = []
         for i in range(1, p["nmeth"] + 1):
-            nested = ""
-            for k in range(1, p["depbounds"] + 1):
+            nested = "let _ = (deps.leaf(1u8), deps.leaf(2u16));\n        " if leaf else ""
+            for k in range(1, nb + 1):
                 v = 100 * i + k
                 nested += (f'::vt::emit("call", &format!("\\"m\\":\\"other{k}\\",\\"recv\\":{{}},\\"args\\":[\\"{v}\\"]", ::vt::js(&::vt::addr(deps))));\n'
                            f'        let __n{k} = deps.other{k}({v});\n'
@@ -287,7 +313,7 @@ def render_c07(case, c, seed):
     n = 0
     for a, x in (("A", "X1"), ("B", "X2")):
         own = {f"m{i}": f"target:{x}::m{i}" for i in range(1, p["nmeth"] + 1)}
-        own.update({f"other{k}": f"{case}::other{k}" for k in range(1, p["depbounds"] + 1)})
+        own.update({f"other{k}": f"{case}::other{k}" for k in range(1, nb + 1)})
         depsmap = {m: "recv" for m in own}
         for i in range(1, p["nmeth"] + 1):
             n += 1
@@ -356,7 +382,8 @@ def render_c05(case, c, seed):
         {tail}
     }}"""
 
-    fn_item = (f"#[::entrait::entrait(pub Tr)]\n{fnkw} f{gens}(deps: {deps_ty}{sig_params}) -> {ret_ty} "
+    mockopt = ", mockall" if p.get("mock") == "mockall" else ""
+    fn_item = (f"#[::entrait::entrait(pub Tr{mockopt})]\n{fnkw} f{gens}(deps: {deps_ty}{sig_params}) -> {ret_ty} "
                + body(f"{case}::f", "::vt::addr(deps)", value=valexpr) + "\n")
     # hand-written impls
     self_ty = "&'a self" if "'a" in gens else "&self"
